@@ -470,12 +470,31 @@ def _nbargs(a):
     return ((int(a[1]), int(a[2])), int(a[3]))
 
 
+def _snapshot(ops):
+    """identity of every array operand's buffer, its elements and its shape (an operation must leave its operands alone)"""
+    snap = []
+    for o in ops:
+        if hasattr(o, "data") and hasattr(o, "shape"):
+            snap.append((id(o.data), tuple(id(e) for e in o.data), tuple(o.shape)))
+        else:
+            snap.append(None)
+    return snap
+
+
 def run_case(case):
-    """The case on the live code -> outcome wire string."""
+    """The case on the live code -> outcome wire string (`(err OperandMutated)` if the call changed an array operand)."""
+    ops = [dec(o) for o in case.get("ops", [])]
+    before = _snapshot(ops)
+    out = _run_case(case, ops)
+    if _snapshot(ops) != before:
+        return "(err OperandMutated)"
+    return out
+
+
+def _run_case(case, ops):
     A, C, E = _mods()
     f = case["form"]
     t = f[0]
-    ops = [dec(o) for o in case.get("ops", [])]
     if t == "bin":
         fn = dict(BINOPS)[f[1]]
         return outcome(lambda: fn(ops[0], ops[1]))
